@@ -39,6 +39,7 @@ from pybufrkit.descriptors import (ElementDescriptor,
                                    OperatorDescriptor, SequenceDescriptor, BufrTemplate,
                                    UndefinedElementDescriptor, UndefinedSequenceDescriptor)
 from pybufrkit.utils import generate_quiet
+from pybufrkit.errors import PyBufrKitError
 
 __all__ = ['TableGroupKey', 'TableGroupCacheManager']
 
@@ -291,7 +292,11 @@ def _descriptors_from_ids_iter(b, c, r, d, next_id):
         elif id_ >= 100000:
             descriptor = r.lookup(id_)
             if isinstance(descriptor, DelayedReplicationDescriptor):
-                descriptor.factor = b.lookup(next_id())
+                try:
+                    factor_id = next_id()
+                except StopIteration:
+                    raise PyBufrKitError('No replication factor follows delayed replication descriptor {}'.format(id_))
+                descriptor.factor = b.lookup(factor_id)
 
             g = generate_quiet(range(descriptor.n_items), next_id)
             # TODO: check whether the actual number of members equals to n_items
